@@ -1,6 +1,7 @@
 CONSTANTS
   KPool <- KPoolQ
   FPool <- FPoolQ
+  BadPool <- BadPoolQ
   MaxRes = 2
   Depth = 2
 SPECIFICATION Spec
